@@ -1,20 +1,262 @@
 /-
-  C11 — property theorems for the window render model (`Ptk.Model.C11`).
+  C11 — property theorems for the window render model (`Ptk.Model.C11`): end-to-end statements,
+  histories, non-vacuity examples and the machine-checked witnesses of the known findings.
+
+  Where the pieces are (all modules are audited):
+    C11Scroll  doScroll_visible, doScroll_offsets, trunc_min_half, heightLoop_*, fast_eq_loop,
+               scanUp_spec, scrollWrap_tall, scrollWrap_fit
+    C11Copy    Ext / fold_ext (footprint of the copy loop), fold_wrap_geom (wrapped geometry ↔ height loop)
+    C11Lines   copyLine_wrap_rows (= wrap_height_exact), copyLine_wrap_cursor, copyBody_wrap_cursor,
+               copyLine_nowrap_cursor, copyBody_nowrap_cursor
+    C11Window  wrap_cursor_in_window, nowrap_cursor_in_window
+    C11Rows    rows_consecutive
+    C11Procs   tabs_mono, tabs_roundtrip, tabs_d2s_floor, tabs_shows, applyProc_good, merged_good
+    C11Doc     rowOf_lt, colOf_le
 -/
-import Ptk.Model.C11
+import Ptk.Props.C11Window
+import Ptk.Props.C11Rows
+import Ptk.Props.C11Procs
+import Ptk.Props.C11Doc
 namespace Ptk.C11
 open Ptk.Py
 
-theorem tdiv2 (ws : Int) (h : 0 ≤ ws) : Int.tdiv ws 2 = ws / 2 := by
-  rw [Int.tdiv_eq_ediv_of_nonneg h]
+theorem contentLines_length (procs : List Proc) (text : Text) :
+    (contentLines procs text).length = (splitOn '\n' text).length := by
+  simp [contentLines]
 
-/-- after `do_scroll` the cursor is inside `[scroll, scroll + window)`, for every previous scroll -/
-theorem doScroll_visible (beyond : Bool) (cur a b cp ws cs : Int)
-    (hws : 1 ≤ ws) (hcp : 0 ≤ cp) (hcs : cp < cs) (ha : 0 ≤ a) (hb : 0 ≤ b) :
-    0 ≤ doScroll beyond cur a b cp ws cs ∧ doScroll beyond cur a b cp ws cs ≤ cp ∧
-      cp < doScroll beyond cur a b cp ws cs + ws := by
-  simp only [doScroll, tdiv2 ws (by omega)]
-  repeat' split
-  all_goals omega
+theorem contentLines_getD (procs : List Proc) (text : Text) (cy : Nat) (h : cy < (splitOn '\n' text).length) :
+    (contentLines procs text).getD cy [] =
+      (merged cy (splitOn '\n' text).length procs ((splitOn '\n' text).getD cy [])).frags ++ [' '] := by
+  have h' : cy < (contentLines procs text).length := by rw [contentLines_length]; exact h
+  simp only [List.getD, List.getElem?_eq_getElem h', List.getElem?_eq_getElem h, Option.getD_some]
+  simp [contentLines]
+
+/-- **the whole render, end to end** (model level): document text + cursor → processors → content →
+    scroll (from ANY previous scroll state) → body copy.  With one-column cells, tab stops ≥ 1, a content
+    area at least 1×1 and prefixes narrower than it: the render succeeds (no `KeyError` in the position
+    maps), the cursor is found by `rowcol_to_yx`, lies inside the window body and the cell there shows
+    the character the content has at the cursor's display column. -/
+theorem render_cursor_on_char {W : Widths} (hW : W1 W) (c : Cfg) (hps : ∀ p ∈ c.procs, ProcOK p)
+    (tw height w : Nat) (wrap : Bool) (text : Text) (cur : Nat) (s : Scroll)
+    (hw : (tw : Int) - ((if c.margin then numberedMarginWidth (contentLines c.procs text).length else 0 : Nat) : Int) = w)
+    (h1 : 1 ≤ w) (hh : 1 ≤ height)
+    (hpfx : ∀ f, c.prefixFn = some f → ∀ l k, (f l k).length < w) :
+    ∃ r, render W c tw height wrap text cur s = some r ∧ r.cy = rowOf text cur ∧
+      ∃ (yc xc : Nat) (ch : Char), yc < height ∧ xc < w ∧
+        ((contentLines c.procs text).getD r.cy [])[r.cx]? = some ch ∧
+        cursorFound r.st r.cy r.cx = true ∧
+        cursorScreen r.st r.cy r.cx = ((yc : Int) + c.ypos, (xc : Int) + r.xoff) ∧
+        cellAt r.st.cells ((yc : Int) + c.ypos, (xc : Int) + r.xoff) = [ch] := by
+  have hrow := rowOf_lt text cur
+  have hcol := colOf_le text cur
+  -- the display column of the cursor
+  have hg := merged_good (rowOf text cur) (splitOn '\n' text).length c.procs hps
+    ((splitOn '\n' text).getD (rowOf text cur) [])
+  obtain ⟨cx, hcx1, hcx2, _⟩ := hg.defd (colOf text cur) hcol
+  have hcX : cursorX c.procs text cur = some cx := hcx1
+  have hline := contentLines_getD c.procs text (rowOf text cur) hrow
+  have hcy : rowOf text cur < (contentLines c.procs text).length := by rw [contentLines_length]; exact hrow
+  have hcxlt : cx < ((contentLines c.procs text).getD (rowOf text cur) []).length := by
+    rw [hline, List.length_append]; simp only [List.length_singleton]; omega
+  unfold render
+  simp only [hcX, hw]
+  refine ⟨_, rfl, rfl, ?_⟩
+  simp only []
+  generalize (if c.margin then numberedMarginWidth (contentLines c.procs text).length else 0) = mw at *
+  cases wrap with
+  | true =>
+    obtain ⟨yc, xc, a1, a2, a3, a4, a5⟩ := wrap_cursor_in_window hW c (contentLines c.procs text) w height mw h1 hh
+      hpfx (rowOf text cur) cx hcy hcxlt s
+    exact ⟨yc, xc, _, a1, a2, List.getElem?_eq_getElem hcxlt, a3, a4, a5⟩
+  | false =>
+    have hp : match c.prefixFn with | none => 1 ≤ w | some f => ∀ l, (f l 0).length < w := by
+      cases h : c.prefixFn with
+      | none => exact h1
+      | some f => exact fun l => hpfx f h l 0
+    obtain ⟨yc, xc, a1, a2, _, a3, a4, a5⟩ := nowrap_cursor_in_window hW c (contentLines c.procs text) w height mw hh
+      hp (rowOf text cur) cx hcy hcxlt s
+    exact ⟨yc, xc, _, a1, a2, List.getElem?_eq_getElem hcxlt, a3, a4, a5⟩
+
+
+/-! ### histories: any sequence of states rendered through one window -/
+
+/-- one state of the window: size, wrap mode, document, cursor -/
+structure Step where
+  tw : Nat
+  height : Nat
+  wrap : Bool
+  text : Text
+  cur : Nat
+
+/-- render a sequence of states through one window; the scroll state carries over -/
+def renderSeq (W : Widths) (c : Cfg) : List Step → Scroll → List (Option Rendered)
+  | [], _ => []
+  | st :: rest, s =>
+    let r := render W c st.tw st.height st.wrap st.text st.cur s
+    r :: renderSeq W c rest (match r with | some x => x.scroll | none => s)
+
+/-- the stated domain for one state: content area at least 1×1 after the margin, every line prefix
+    narrower than it -/
+def StepOK (c : Cfg) (st : Step) : Prop :=
+  ∃ w : Nat, 1 ≤ w ∧ 1 ≤ st.height ∧
+    (st.tw : Int) - ((if c.margin then numberedMarginWidth (contentLines c.procs st.text).length else 0 : Nat) : Int) = w ∧
+    ∀ f, c.prefixFn = some f → ∀ l k, (f l k).length < w
+
+/-- the property for one render result -/
+def CursorOK (c : Cfg) (st : Step) (o : Option Rendered) : Prop :=
+  ∃ r, o = some r ∧ r.cy = rowOf st.text st.cur ∧
+    ∃ (yc xc : Nat) (ch : Char), yc < st.height ∧ (xc : Int) < r.width ∧
+      ((contentLines c.procs st.text).getD r.cy [])[r.cx]? = some ch ∧
+      cursorFound r.st r.cy r.cx = true ∧
+      cursorScreen r.st r.cy r.cx = ((yc : Int) + c.ypos, (xc : Int) + r.xoff) ∧
+      cellAt r.st.cells ((yc : Int) + c.ypos, (xc : Int) + r.xoff) = [ch]
+
+theorem render_width (W : Widths) (c : Cfg) (tw height : Nat) (wrap : Bool) (text : Text) (cur : Nat)
+    (s : Scroll) (r : Rendered) (h : render W c tw height wrap text cur s = some r) :
+    r.width = (tw : Int) - ((if c.margin then numberedMarginWidth (contentLines c.procs text).length else 0 : Nat) : Int) := by
+  unfold render at h
+  cases hc : cursorX c.procs text cur with
+  | none => rw [hc] at h; cases h
+  | some cx => rw [hc] at h; simp only [Option.some.injEq] at h; rw [← h]
+
+/-- pointwise relation between the states and their render results -/
+inductive All2 {α β : Type} (R : α → β → Prop) : List α → List β → Prop
+  | nil : All2 R [] []
+  | cons {a b as bs} : R a b → All2 R as bs → All2 R (a :: as) (b :: bs)
+
+/-- **history_independent.** Along ANY finite sequence of window states (documents, cursors, sizes,
+    wrap modes) rendered one after the other through one window, starting from ANY scroll state,
+    every single render shows the cursor inside the window on its character. -/
+theorem history_independent {W : Widths} (hW : W1 W) (c : Cfg) (hps : ∀ p ∈ c.procs, ProcOK p)
+    (steps : List Step) : ∀ (s : Scroll), (∀ st ∈ steps, StepOK c st) →
+      All2 (CursorOK c) steps (renderSeq W c steps s) := by
+  induction steps with
+  | nil => intro s _; exact All2.nil
+  | cons st rest ih =>
+    intro s hok
+    obtain ⟨w, h1, hh, hw, hp⟩ := hok st (by simp)
+    obtain ⟨r, hr, hcy, yc, xc, ch, a1, a2, a3, a4, a5, a6⟩ :=
+      render_cursor_on_char hW c hps st.tw st.height w st.wrap st.text st.cur s hw h1 hh hp
+    have hrw := render_width W c _ _ _ _ _ _ r hr
+    rw [renderSeq]
+    refine All2.cons ⟨r, hr, hcy, yc, xc, ch, a1, by rw [hrw, hw]; exact_mod_cast a2, a3, a4, a5, a6⟩ ?_
+    exact ih _ (fun q hq => hok q (by simp [hq]))
+
+/-! ### non-vacuity: the hypotheses are satisfiable on non-trivial states, and concrete renders -/
+
+/-- one-column cells -/
+def w1 : Widths := { rw := fun _ => 1, disp := fun c => [c] }
+theorem w1_W1 : W1 w1 := fun _ => ⟨rfl, rfl⟩
+
+def cfg0 : Cfg := { xpos := 0, ypos := 0, top := 0, bottom := 0, left := 0, right := 0, beyond := false,
+                    margin := false, pfx := none, procs := [] }
+/-- offsets, a numbered margin, a prompt / continuation prefix, BeforeInput + TabsProcessor -/
+def cfg1 : Cfg := { xpos := 2, ypos := 1, top := 1, bottom := 1, left := 1, right := 1, beyond := false,
+                    margin := true, pfx := some ("> ".toList, ". ".toList, ". ".toList),
+                    procs := [.before "$ ".toList, .tabs 4 '|' '.'] }
+def s0 : Scroll := { vs := 0, hs := 0, vs2 := 0 }
+def sOld : Scroll := { vs := 7, hs := 9, vs2 := 4 }
+
+-- doScroll_visible: window 3, content 10, cursor 7, previous scroll 0 -> scrolls to 6 (offset 1 kept)
+example : doScroll false 0 1 1 7 3 10 = 6 := by decide
+example := doScroll_visible false 0 1 1 7 3 10 (by decide) (by decide) (by decide) (by decide) (by decide)
+example := doScroll_offsets false 0 1 1 7 3 10 (by decide) (by decide) (by decide) (by decide) (by decide)
+-- trunc_min_half at an odd window size and at a negative one (truncation toward zero, not floor)
+example : Int.tdiv (min (2 * 9) (min 5 (2 * 7))) 2 = 2 := by decide
+example : Int.tdiv (min (2 * 9) (min (-5) (2 * 7))) 2 = -2 := by decide
+-- heights: 7 cells in width 3 → 3 rows; with a 2-cell continuation prefix → 5 rows; exact multiple 6/3 → 2
+example : heightForLine w1 "abcdefg".toList 3 none none = 3 := by decide
+example : heightForLine w1 "abcdefg".toList 3 (some fun k => if k = 0 then 0 else 2) none = 5 := by decide
+example : heightForLine w1 "abcdef".toList 3 none none = 2 := by decide
+example := fast_eq_loop 3 (by decide) 7 7 (by decide)
+-- scrollWrap_tall / scrollWrap_fit instances
+example := scrollWrap_tall (fun _ => 3) 2 1 0 1 0 0 false sOld (by decide) (by decide) (by decide)
+example := scrollWrap_fit (fun _ => 1) 1 5 3 2 0 0 false sOld (by decide) (by decide) (by decide) (by decide)
+
+/-- the F9 input on the model of the FIXED code: width 3, height 1, "abcdef" + blank, cursor 3:
+    intra-line scroll 1, the cursor is found at (0,0) and the cell shows 'd' -/
+example : let s' := scrollFor w1 cfg0 ["abcdef ".toList] 3 1 true 0 3 s0
+    let r := copyBody (envFor w1 cfg0 3 1 true 0) ["abcdef ".toList] s'
+    s'.vs2 = 1 ∧ cursorFound r 0 3 = true ∧ cursorScreen r 0 3 = (0, 0) ∧ cellAt r.cells (0, 0) = ['d'] := by
+  decide
+
+/-- the code BEFORE the fix (`slice_stop = cursor.x`, i.e. text-before height without the cursor cell)
+    loses the cursor on the same input: machine-checked negation of `wrap_cursor_in_window` for the
+    old scroll formula -/
+theorem f9_old_formula_loses_cursor :
+    let lh := fun _ : Nat => heightForLine w1 "abcdef ".toList 3 none none
+    let tbhOld := heightForLine w1 "abcdef ".toList 3 none (some 3)
+    let s' := scrollWrap lh tbhOld 1 0 1 0 0 false s0
+    cursorFound (copyBody (envFor w1 cfg0 3 1 true 0) ["abcdef ".toList] s') 0 3 = false := by
+  decide
+
+-- wrap_cursor_in_window / nowrap_cursor_in_window instantiated on a 3-line document, window 4×2,
+-- a scrolled-away previous state
+example := wrap_cursor_in_window w1_W1 cfg0 ["abcdefghij ".toList, "k ".toList, "lmnopq ".toList] 4 2 0
+  (by decide) (by decide) (fun f h => by simp [cfg0, Cfg.prefixFn] at h) 2 5 (by decide) (by decide) sOld
+example := nowrap_cursor_in_window w1_W1 cfg0 ["abcdefghij ".toList, "k ".toList, "lmnopq ".toList] 4 2 0
+  (by decide) (by simp [cfg0, Cfg.prefixFn]) 0 9 (by decide) (by decide) sOld
+example : let lines := ["abcdefghij ".toList, "k ".toList, "lmnopq ".toList]
+    let r := copyBody (envFor w1 cfg0 4 2 true 0) lines (scrollFor w1 cfg0 lines 4 2 true 2 5 sOld)
+    cursorScreen r 2 5 = (1, 1) ∧ cellAt r.cells (1, 1) = ['q'] := by decide
+-- rows_consecutive on the same render
+example := rows_consecutive (envFor w1 cfg0 4 2 true 0) ["abcdefghij ".toList, "k ".toList, "lmnopq ".toList] s0
+
+-- processors: tab stops 4, "a\tb\t" → display "a|..b|.." ; map 0,1,4,5,8,9
+example : tabsMap 4 "a\tb\t".toList = [0, 1, 4, 5, 8, 9] := by decide
+example : tabsOut 4 '|' '.' "a\tb\t".toList 0 = "a|..b|..".toList := by decide
+example := tabs_roundtrip 4 (by decide) "a\tb\t".toList 3 (by decide)
+example := tabs_d2s_floor (tabsMap 4 "a\tb\t".toList) (tabs_mono 4 (by decide) _) 1 (by decide) 3
+  (by decide) (by decide)
+example : (merged 0 1 cfg1.procs "a\tb".toList).frags = "$ a|b".toList := by decide
+example := merged_good 0 1 cfg1.procs (by intro p hp; simp [cfg1] at hp; rcases hp with rfl | rfl <;> simp [ProcOK])
+  "a\tb".toList
+
+/-- the end-to-end theorem on a non-trivial state: margin + prefixes + BeforeInput + tabs, window
+    12×2 (content 9 after the 3-column margin), previous scroll state scrolled far away -/
+example := render_cursor_on_char w1_W1 cfg1
+  (by intro p hp; simp [cfg1] at hp; rcases hp with rfl | rfl <;> simp [ProcOK])
+  12 2 9 true "ab\tcd\nefghijklmnopqrstuvw\nx".toList 20 sOld (by decide) (by decide) (by decide)
+  (by intro f hf l k
+      simp only [cfg1, Cfg.prefixFn, Option.map_some, Option.some.injEq] at hf
+      subst hf
+      show (if k > 0 then ". ".toList else if l = 0 then "> ".toList else ". ".toList).length < 9
+      split
+      · decide
+      · split <;> decide)
+
+/-! ### the known findings, machine-checked on the model (negations of the main theorems outside
+    their hypotheses) -/
+
+/-- '世' is two columns wide -/
+def wWide : Widths := { rw := fun c => if c = '世' then 2 else 1, disp := fun c => [c] }
+
+/-- known finding (wide characters, wrapping): width 2, height 1, line "a世" + blank, cursor on the
+    blank: the height estimate says 2 rows (4 cells / 2), the copy loop needs 3 ('a' / '世' / ' '), the
+    scroll stops one row short and the cursor cell is not drawn -/
+theorem wide_wrap_loses_cursor :
+    let lines := ["a世 ".toList]
+    let s' := scrollFor wWide cfg0 lines 2 1 true 0 2 s0
+    s'.vs2 = 1 ∧ cursorFound (copyBody (envFor wWide cfg0 2 1 true 0) lines s') 0 2 = false := by
+  decide
+
+/-- a raw TAB: measured 0 by `get_cwidth`, drawn as "^I" (2 columns) -/
+def wCtrl : Widths := { rw := fun c => if c = '\t' then 0 else 1,
+                        disp := fun c => if c = '\t' then ['^', 'I'] else [c] }
+
+/-- known finding (control characters, no wrapping): width 5, "\t\t\t\tx" + blank, cursor on 'x':
+    the scroll code measures 0 columns before the cursor, the cell is at column 8 -/
+theorem control_nowrap_loses_cursor :
+    let lines := ["\t\t\t\tx ".toList]
+    let s' := scrollFor wCtrl cfg0 lines 5 1 false 0 4 s0
+    s'.hs = 0 ∧ cursorFound (copyBody (envFor wCtrl cfg0 5 1 false 0) lines s') 0 4 = false := by
+  decide
+
+/-- known finding (control characters, wrapping): same line, width 5, height 1 -/
+theorem control_wrap_loses_cursor :
+    let lines := ["\t\t\t\tx ".toList]
+    let s' := scrollFor wCtrl cfg0 lines 5 1 true 0 4 s0
+    s'.vs2 = 0 ∧ cursorFound (copyBody (envFor wCtrl cfg0 5 1 true 0) lines s') 0 4 = false := by
+  decide
 
 end Ptk.C11
